@@ -283,6 +283,8 @@ class SymInt:
             v = s_.model().eval(self.t, model_completion=True)
             if z3.is_int_value(v):
                 c.__dict__["display_concretisations"] = c.__dict__.get("display_concretisations", 0) + 1
+                # ghost log: which term was rendered as which digits (lets a stand-in for open() recover the term behind a formatted name)
+                c.__dict__.setdefault("display_log", []).append((self.t, v.as_long()))
                 return v.as_long()
         return 0
 
